@@ -39,7 +39,7 @@ OPS = ['get_value', 'get_value', 'set_value', 'set_value', 'exists', 'count', 's
 def tier_config(tier):
     if tier == 'thorough':
         return {'runs': 16000, 'wall': 820, 'det_probe': 4}
-    return {'runs': 600, 'wall': 110, 'det_probe': 3}
+    return {'runs': 3000, 'wall': 150, 'det_probe': 3}
 
 
 def seg_string(node, vals):
